@@ -542,6 +542,28 @@ func (c *Ctx) c05StatusReadsIn(top *ssa.Function, o *Origins, ln *lnFacts) {
 			}
 		}
 		reach, path := ReachFromEntry(op, ifi, cut)
+		if reach {
+			// the branch may test a local that merges the raw status with constants (outcome := answer.Status;
+			// if err != nil { outcome = Failed }): then the raw status is read only along the merge's incoming
+			// edges that carry it, and each of those must be cut
+			if ph := comparedPhi(ifi); ph != nil {
+				reach, path = false, nil
+				for i, ev := range ph.Edges {
+					if _, isConst := ev.(*ssa.Const); isConst {
+						continue
+					}
+					pred := ph.Block().Preds[i]
+					for si, sb := range pred.Succs {
+						if sb != ph.Block() || cut.Edges[Edge{pred, si}] {
+							continue
+						}
+						if r2, p2 := Reach(Point{op.Blocks[0], 0}, Point{pred, len(pred.Instrs) - 1}, cut); r2 {
+							reach, path = true, append(p2, ph.Block())
+						}
+					}
+				}
+			}
+		}
 		why := ""
 		if reach {
 			why = "status is read on a path where the call's error was not tested nil and no override happened: " + c.P.PathString(path)
@@ -553,6 +575,21 @@ func (c *Ctx) c05StatusReadsIn(top *ssa.Function, o *Origins, ln *lnFacts) {
 		R.Check("R2", fk, kind+" status read guarded", c.P.InstrPos(ifi), !reach,
 			"the PaymentStatus of a "+kind+" answer is read only where its error is nil (or after the explicit Failed override): the zero value means Succeeded", why)
 	}
+}
+
+// comparedPhi returns the phi whose value the branch compares with a constant (nil when the compared value is
+// not a phi of the branch's own function).
+func comparedPhi(ifi *ssa.If) *ssa.Phi {
+	bo, ok := ifi.Cond.(*ssa.BinOp)
+	if !ok {
+		return nil
+	}
+	for _, v := range []ssa.Value{bo.X, bo.Y} {
+		if ph, ok := UnwrapConv(v).(*ssa.Phi); ok {
+			return ph
+		}
+	}
+	return nil
 }
 
 // c05Backends: R3.
